@@ -5,8 +5,9 @@ well-formed and equal to the published format, the generic bit-field codec is in
 preserving for every layout, size/offset arithmetic, decoder safety).
 Tie: (1) translators gen_typelib_layout (C probe against /repo's header) and gen_typelib_consts;
 (2) correspondence: the Lean reader against /repo's C structs on every blob of every typelib
-compiled this run, the Lean writer against the C structs, the size model against the real files,
-the decoded directory against the public repository API;
+compiled this run, the Lean writer against the C structs, the size model against the real files
+(blob extents, header area, and the directory index section whose size variable's width is read from
+girmodule.c on every run), the decoded directory against the public repository API;
 (3) translation validation (validated, NOT proved): decode(bytes written by the real g-ir-compiler)
 is compared with the API the GIR TEXT stands for by the GIR schema rules -- this is the
 failing-input search, written from the property statement.
@@ -29,9 +30,11 @@ Oracle conventions (what "the same API" means, written from the statement and th
   parameters, which add an indirection of their own), or it names a pointer/disguised record;
 * values are stored as far as the format allows: enum values in 32 bits with a sign flag,
   closure/destroy in a signed byte, counts and indices in 16 bits -- inputs beyond are outside.
-QUIRKS are named deviations of the unchanged compiler from these rules (each one a reported
-finding); `expected_api(..., quirks=set)` can apply them so that the harness can tell a
-pending finding from a new failure.
+QUIRKS are named deviations of the unchanged compiler from these rules (each one a reported,
+still unrepaired finding); `expected_api(..., quirks=set)` can apply them so that the harness can
+tell a pending finding from a new failure.  The oracle itself (quirks=()) follows the schema only;
+defects that /repo has repaired are NOT emulated any more -- their minimal inputs stay in
+corpus/C06/02-findings.json and 04-fix-neighbours.json as regression cases.
 """
 import struct
 import xml.etree.ElementTree as ET
@@ -2550,6 +2553,8 @@ def run(ctx):
         'a failure after parsing (abort, g_error, failed self-validation) is a failure of the property',
         'values outside the format\'s widths (enum values beyond 32 bits, closure/destroy beyond a signed byte, counts and '
         'indices beyond 16 bits, property/method indices beyond 10 bits) are not generated',
+        'the generator writes <attribute> children before the <type>/<callback> child of their element, as the scanner '
+        'does; the other order (valid by the schema) is the pending finding of corpus case P1',
         'vfunc must-chain-up/override/is-class-closure/offset and signal has-class-closure are not GIR schema attributes '
         '(docs/gir-1.2.rnc) and are not generated; async-func/sync-func/finish-func are not read by this compiler version',
     ])
